@@ -5,7 +5,7 @@
 SRC="$(dirname "$(readlink -f "$0")")/.."
 WT="$1"; P="$2"; TIER="${3:-quick}"
 COPY=$(mktemp -d /tmp/seedtest-XXXXXX)
-rsync -a --exclude replay "$SRC/" "$COPY/" || exit 2
+rsync -a --exclude replay --exclude .git "$SRC/" "$COPY/"; [ -x "$COPY/check" ] || exit 2
 cd "$COPY"
 TAG=$(basename "$(dirname "$WT")")-$(basename "$WT")
 NESSAI_REPO="$WT" ./check "$P" --tier "$TIER" > "/tmp/seedtest-$TAG-$P.log" 2>&1
